@@ -1409,72 +1409,74 @@ class SVG:
             return svg
 
         self._update_etree()
+        if _verif.ENABLED:
+            _verif.emit("step", name="begin", svg=self)
 
         # Discard useless content
         self.remove_nonsvg_content(inplace=True)
         if _verif.ENABLED:
-            _verif.emit("step", name="remove_nonsvg_content")
+            _verif.emit("step", name="remove_nonsvg_content", svg=self)
         self.remove_processing_instructions(inplace=True)
         if _verif.ENABLED:
-            _verif.emit("step", name="remove_processing_instructions")
+            _verif.emit("step", name="remove_processing_instructions", svg=self)
         self.remove_anonymous_symbols(inplace=True)
         if _verif.ENABLED:
-            _verif.emit("step", name="remove_anonymous_symbols")
+            _verif.emit("step", name="remove_anonymous_symbols", svg=self)
         self.remove_title_meta_desc(inplace=True)
         if _verif.ENABLED:
-            _verif.emit("step", name="remove_title_meta_desc")
+            _verif.emit("step", name="remove_title_meta_desc", svg=self)
 
         # Simplify things that simplify in isolation
         self.apply_style_attributes(inplace=True)
         if _verif.ENABLED:
-            _verif.emit("step", name="apply_style_attributes")
+            _verif.emit("step", name="apply_style_attributes", svg=self)
         self.resolve_nested_svgs(inplace=True)
         if _verif.ENABLED:
-            _verif.emit("step", name="resolve_nested_svgs")
+            _verif.emit("step", name="resolve_nested_svgs", svg=self)
         self.shapes_to_paths(inplace=True)
         if _verif.ENABLED:
-            _verif.emit("step", name="shapes_to_paths")
+            _verif.emit("step", name="shapes_to_paths", svg=self)
         self.expand_shorthand(inplace=True)
         if _verif.ENABLED:
-            _verif.emit("step", name="expand_shorthand")
+            _verif.emit("step", name="expand_shorthand", svg=self)
         self.resolve_use(inplace=True)
         if _verif.ENABLED:
-            _verif.emit("step", name="resolve_use")
+            _verif.emit("step", name="resolve_use", svg=self)
 
         # Simplify things that do not simplify in isolation
         self.simplify(inplace=True)
         if _verif.ENABLED:
-            _verif.emit("step", name="simplify")
+            _verif.emit("step", name="simplify", svg=self)
 
         if drop_unsupported:
             # discard now what the final check would discard, so that the groups and
             # gradients this leaves without purpose are tidied up with everything else
             self.checkpicosvg(allow_text=allow_text, drop_unsupported=True)
             if _verif.ENABLED:
-                _verif.emit("step", name="drop_unsupported")
+                _verif.emit("step", name="drop_unsupported", svg=self)
 
         # Tidy up
         self.evenodd_to_nonzero_winding(inplace=True)
         if _verif.ENABLED:
-            _verif.emit("step", name="evenodd_to_nonzero_winding")
+            _verif.emit("step", name="evenodd_to_nonzero_winding", svg=self)
         self.normalize_opacity(inplace=True)
         if _verif.ENABLED:
-            _verif.emit("step", name="normalize_opacity")
+            _verif.emit("step", name="normalize_opacity", svg=self)
         self.absolute(inplace=True)
         if _verif.ENABLED:
-            _verif.emit("step", name="absolute")
+            _verif.emit("step", name="absolute", svg=self)
         self.round_floats(ndigits, inplace=True)
         if _verif.ENABLED:
-            _verif.emit("step", name="round_floats")
+            _verif.emit("step", name="round_floats", svg=self)
 
         # https://github.com/googlefonts/picosvg/issues/269 remove empty subpaths *after* rounding
         self.remove_empty_subpaths(inplace=True)
         if _verif.ENABLED:
-            _verif.emit("step", name="remove_empty_subpaths")
+            _verif.emit("step", name="remove_empty_subpaths", svg=self)
         while True:
             self.remove_unpainted_shapes(inplace=True)
             if _verif.ENABLED:
-                _verif.emit("step", name="remove_unpainted_shapes")
+                _verif.emit("step", name="remove_unpainted_shapes", svg=self)
             # dropping shapes can leave groups that need not (and, by the picosvg rules,
             # must not) be groups any more: fewer than two children or nothing visible
             if not self._dissolve_needless_groups():
@@ -1482,17 +1484,17 @@ class SVG:
             # a dissolved group pushed its opacity down onto its child
             self.round_floats(ndigits, inplace=True)
             if _verif.ENABLED:
-                _verif.emit("step", name="dissolved_groups_and_rounded")
+                _verif.emit("step", name="dissolved_groups_and_rounded", svg=self)
         # the shapes just dropped may have been the only users of a gradient
         self._remove_orphaned_gradients()
         if _verif.ENABLED:
-            _verif.emit("step", name="_remove_orphaned_gradients")
+            _verif.emit("step", name="_remove_orphaned_gradients", svg=self)
 
         violations = self.checkpicosvg(
             allow_text=allow_text, drop_unsupported=drop_unsupported
         )
         if _verif.ENABLED:
-            _verif.emit("step", name="checkpicosvg", violations=len(violations))
+            _verif.emit("step", name="checkpicosvg", violations=len(violations), svg=self)
         if violations:
             raise ValueError("Unable to convert to picosvg: " + ",".join(violations))
 
